@@ -12,7 +12,7 @@ import (
 )
 
 func ruleText(thorough bool) string {
-	reduced := "byte substitutions and the remaining truncations run Text, ToMarkdown, PageCount (PDF; Chunks is a prefix of ToMarkdown there) or Text, Chunks (other formats) + the matching raw parsers; doubles: all pairs of structural faults (classes 2-6) within the same PDF object / xref section / ZIP record / XML tag, run through Text, PageCount (PDF) or Text (other formats) + the matching raw parsers; "
+	reduced := "byte substitutions and the remaining truncations run Text, ToMarkdown, PageCount (PDF; Chunks is a prefix of ToMarkdown there) or Text (other formats: every entry re-parses the whole container first) + the matching raw parsers; doubles: all pairs of structural faults (classes 2-6) within the same PDF object / xref section / ZIP record / XML tag, run through Text, PageCount (PDF) or Text (other formats) + the matching raw parsers; "
 	if thorough {
 		reduced = "byte substitutions and the remaining truncations run Text, ToMarkdown, Chunks, PageCount + the matching raw parsers; doubles: all pairs of structural faults (classes 2-6) within the same PDF object / xref section / ZIP record / XML tag, then all remaining pairs of the same layer until the internal time budget is used up, run through Text, Chunks, PageCount + the matching raw parsers; "
 	}
